@@ -4,7 +4,10 @@
    snapshot of values) and is applied verbatim to observations recorded from the
    implementation, and proved of the model in Proofs.v.
    Clause codes (returned on failure, as 100*step + clause):
-     1 a mutually linked pair differs after the operation (charged to the operation that breaks
+   A partner whose trait rejects the value (a narrower trait type: here a list trait offered an integer
+   or vice versa) keeps its value; every OTHER partner must still be updated.  Traits named >= 4 (`Any`)
+   are not observed: nothing is demanded of them.
+     1 a mutually linked pair (of the same kind) differs after the operation (charged to the operation that breaks
        the equality or creates the link: a pair that already differed before is not charged again)
      2 one-way: after a value-changing assignment on the source (or the creation of the link)
        a direct target differs from the source
@@ -73,7 +76,7 @@ Definition outcome_eqb (a b : outcome) : bool :=
   match a, b with Done, Done => true | Raised x, Raised y => exn_eqb x y | _, _ => false end.
 
 (* what the plain (unsynchronised) operation does to the operated trait: outcome and new value *)
-Definition plain (before : snap) (o : op) : outcome * option (node * val) :=
+Definition plain (E : list (node * node)) (before : snap) (o : op) : outcome * option (node * val) :=
   match o with
   | Assign x n v => if kind_ok n v then (Done, Some ((x, n), v)) else (Raised TraitError, None)
   | Mut x n m =>
@@ -83,6 +86,15 @@ Definition plain (before : snap) (o : op) : outcome * option (node * val) :=
                        | Raise e => (Raised e, None)
                        end
       | _ => (Raised AttributeError, None)
+      end
+  | Sync x n p m _ =>
+      (* creating a link assigns the source's value to the partner: a partner whose trait rejects it
+         raises TraitError out of sync_trait (the link exists nevertheless) *)
+      match sval before (x, n) with
+      | Some v => if negb (existsb (fun e => node_eqb (fst e) (x, n) && node_eqb (snd e) (p, m)) E)
+                     && negb (kind_ok m v)
+                  then (Raised TraitError, None) else (Done, None)
+      | None => (Done, None)
       end
   | _ => (Done, None)
   end.
@@ -99,18 +111,23 @@ Definition all_nodes (s : snap) : list node :=
 Definition law_step (E : list edge) (before : snap) (o : op) (ob : obs) : list Z :=
   let E' := edges_after E o in
   let after := ob_vals ob in
-  let '(expected, target) := plain before o in
+  let '(expected, target) := plain E before o in
   let R := reach E' (origins o expected) in
   chk 1 (forallb (fun e => negb (has_edge (snd e, fst e) E')
+                           || negb (Bool.eqb (is_list_name (snd (fst e))) (is_list_name (snd (snd e))))
+                           || is_any_name (snd (fst e)) || is_any_name (snd (snd e))
                            || (has_edge e E && has_edge (snd e, fst e) E
                                && negb (oval_eqb (sval before (fst e)) (sval before (snd e))))
                            || oval_eqb (sval after (fst e)) (sval after (snd e))) E')
   ++ chk 2 (match o, target with
             | Assign x n v, Some _ =>
                 oval_eqb (sval before (x, n)) (Some v)
-                || forallb (fun y => oval_eqb (sval after y) (Some v)) (succs E (x, n))
+                || forallb (fun y => is_any_name (snd y) || negb (kind_ok (snd y) v)
+                                     || oval_eqb (sval after y) (Some v)) (succs E (x, n))
             | Sync x n p m _, _ =>
-                has_edge ((x, n), (p, m)) E || oval_eqb (sval after (p, m)) (sval after (x, n))
+                has_edge ((x, n), (p, m)) E || is_any_name m
+                || match sval before (x, n) with Some v => negb (kind_ok m v) | None => false end
+                || oval_eqb (sval after (p, m)) (sval after (x, n))
             | _, _ => true
             end)
   ++ chk 3 (match o, target with
